@@ -130,6 +130,16 @@ func (vc *VC) verify() (obls []*Obligation, err error) {
 			s.assume(env.evalBool(kf.Expr))
 		}
 	}
+	if len(spec.WorkerEnsures) > 0 || spec.ChanNonNil {
+		s.ghost["$spawned"] = IntLit(0)
+		s.ghost["$quiet"] = False
+		s.ghost["$defaultTaken"] = False
+		s.ghost["$fcalls"] = IntLit(0)
+		vc.ghostTypes["$spawned"] = types.Typ[types.Int]
+		vc.ghostTypes["$fcalls"] = types.Typ[types.Int]
+		vc.ghostTypes["$quiet"] = types.Typ[types.Bool]
+		vc.ghostTypes["$defaultTaken"] = types.Typ[types.Bool]
+	}
 	vc.cover(s, "requires", "precondition satisfiable", fi.Decl.Pos())
 	vc.entry = s.clone()
 	vc.modAll = spec.ModAll
